@@ -310,9 +310,9 @@ type c11ImpCase struct {
 }
 
 const c11ImpYang = `module imp { namespace "urn:imp"; prefix i; feature x; feature y;
- grouping g { leaf gx { if-feature x; type string; } leaf gxy { if-feature "x and not y"; type string; } leaf plain { type string; } } }`
+ grouping g { leaf gx { if-feature x; type string; } leaf gxy { if-feature "x and not y"; type string; } leaf gix { if-feature "i:x"; type string; } leaf plain { type string; } } }`
 const c11ImpMain = `module mn { yang-version 1.1; namespace "urn:mn"; prefix m; import imp { prefix i; } feature a;
- container top { leaf ma { if-feature a; type string; } uses i:g; leaf last { type string; } } }`
+ container top { leaf ma { if-feature a; type string; } leaf mma { if-feature "m:a"; type string; } leaf mix { if-feature "i:x and not i:y"; type string; } uses i:g; leaf last { type string; } } }`
 
 func c11ImpRun(c c11ImpCase, o *hx.Obs) {
 	o.NonTrivial()
@@ -350,7 +350,7 @@ func c11ImpRun(c c11ImpCase, o *hx.Obs) {
 		o.Failf("iffeature|imported|"+c.Cfg+"|collateral", "enabled=%v (%s): unguarded nodes are missing", onList, c.Cfg)
 		return
 	}
-	for leaf, want := range map[string]bool{"ma": on["a"], "gx": on["x"], "gxy": on["x"] && !on["y"]} {
+	for leaf, want := range map[string]bool{"ma": on["a"], "gx": on["x"], "gxy": on["x"] && !on["y"], "mma": on["a"], "mix": on["x"] && !on["y"], "gix": on["x"]} {
 		if got := findDef(top, leaf) != nil; got != want {
 			o.Failf("iffeature|imported|"+c.Cfg+"|"+leaf, "enabled=%v (%s): leaf %s present=%v, its if-feature is %v (gx and gxy are guarded by features of the imported module that defines their grouping)", onList, c.Cfg, leaf, got, want)
 			return
@@ -360,7 +360,7 @@ func c11ImpRun(c c11ImpCase, o *hx.Obs) {
 
 var c11Imported = hx.Register(&hx.Check[c11ImpCase]{
 	Name: "c11-imported-features",
-	Rule: "a grouping of an imported module whose leaves are guarded by that module's features, used by the main module next to a leaf guarded by the main module's own feature; all 8 assignments x allow-list / deny-list (and all-on); enumerated completely",
+	Rule: "a grouping of an imported module whose leaves are guarded by that module's features, used by the main module next to leaves guarded by the main module's own feature and, by prefix, by the imported module's features (feature names also written with the own prefix of the module they stand in); all 8 assignments x allow-list / deny-list (and all-on); enumerated completely",
 	Run:  c11ImpRun,
 })
 
